@@ -610,6 +610,13 @@ def r9_9(ctx, rc):
     r8_3(ctx, rc)
     # a failed output is removed before its record is published (R10.2)
     r10_2(ctx, rc)
+    # a duplicate rejected by the atomic claim is a set-up failure of the
+    # second call and recorded as one (R14.5, R8.5): otherwise the rejected
+    # call's record competes with the owner's
+    from .c08 import r8_5
+    from .c14 import r14_5
+    r8_5(ctx, rc)
+    r14_5(ctx, rc)
 
 
 RULES = [
